@@ -467,7 +467,7 @@ pub fn run(ctx: &Ctx) -> ! {
          (basic crypto, key schedule, PSK secret, secret tree, transcript hashes). Generated per case: suite (1-7) x provider; random init/commit/PSK secrets and GroupContext \
          (ids, hashes, 0-3 extensions); PSK lists of 0-5 mixed external/resumption ids with random nonces; tree sizes 2^0..2^10, any leaf, generations 0..2000, both ratchets; \
          exporter label/context/length incl. 0, 255*Nh and 255*Nh+1; sender-data samples shorter and longer than Nh; tags and interim hashes. Plus live groups (two thirds with public handshake; with encrypted handshake the reference decrypts the commit itself): \
-         membership tag, confirmed/interim transcript hash, confirmation tag and, for path-less commits, every secret of the new epoch recomputed from the previous epoch's init secret, incl. commits that inject 2-3 external PSKs in a generated (not id-sorted) order. \
+         membership tag, confirmed/interim transcript hash, confirmation tag and, for path-less commits, every secret of the new epoch recomputed from the previous epoch's init secret, incl. commits that inject 2-3 external PSKs in a generated (not id-sorted) order and the resumption PSK of the current or a retained past epoch, with members persisted at generated moments (so that past epochs live in the store, in the pending writes, or both). \
          Non-trivial = derivation with a non-zero PSK secret / >= 1 PSK / generation > 0 or leaf > 0 / any export; distinct by input values.",
     );
     ev.assume("refmodel::keysched and refmodel::wire are correct; they are calibrated on the IETF interop vectors before every run");
